@@ -59,7 +59,11 @@ CONSTANTS NS,        \* key spaces (prefix databases) 1..NS
           UsedInit,  \* space already used at the start (lets the gate configurations start on a nearly full map)
           Chunk,     \* allocation chunk, in space units
           PutCost,   \* space units a put may newly allocate (0 switches space accounting off)
-          BatchMax,  \* ASSUMPTION on callers: a batch allocates at most this many units
+          BatchMax,  \* a batch allocates at most this many units. NoMapFull is claimed for SmallBatches (<= 10 % of the map) only
+          SqueezedFits, \* TRUE: ASSUMPTION on callers - a batch opened by a thread that holds another transaction while the map
+                     \* needs enlarging fits into what is left; FALSE: no such assumption (the letter of the property)
+          ReopenClampsMap, \* FALSE: closing and reopening the environment gives back the map size that was persisted (the code);
+                     \* TRUE: Store::new asks for one chunk, LMDB corrects that upwards to the size of the data (careless variant)
           TxnBeforeGate, \* FALSE: Batch::new = enter_tx() then write_txn() (the code, the property);
                          \* TRUE: write_txn() first - the waiting batch owns the write transaction (careless variant)
           NestedCloseClearsMark, \* FALSE: THREAD_TX_COUNTS counts the thread's open transactions (the code);
@@ -78,7 +82,11 @@ Untouched == -1      \* overlay has no entry for the cell
 ASSUME Vals \subseteq (Nat \ {0})
 \* The resize policy (RESIZE_PERCENT = 0.9, checked only when a batch is opened) keeps at
 \* least 10 % of the map free at Begin. The property is claimed for batches below that.
-ASSUME BatchMax * 10 <= MapInit /\ MapInit >= Chunk /\ UsedInit \in 0..MapInit
+ASSUME MapInit >= Chunk /\ UsedInit \in 0..MapInit
+\* The map is enlarged only BETWEEN batches (Store::batch -> maybe_resize), never for the batch that needs the space:
+\* a batch can count on the 10 % only. NoMapFull holds under SmallBatches /\ SqueezedFits; without them the code's policy
+\* cannot hold it (MC_KV_bigbatch, MC_KV_squeeze violate NoMapFull; both counterexamples are reproduced on the real Store).
+SmallBatches == BatchMax * 10 <= MapInit
 ASSUME Writers \subseteq Threads /\ ItThreads \subseteq Threads /\ RdThreads \subseteq Threads
 
 VARIABLES committed,  \* [Cells -> Vals \cup {NoVal}]   durable, what every outside reader sees
@@ -219,7 +227,7 @@ BIdle == Depth > 0 /\ Idle(bown)
 
 Write(sp, key, v, name, cost) ==
          /\ BIdle /\ pend + cost <= BatchMax
-         /\ (squeezed => used + pend + cost <= mapSize)
+         /\ ((squeezed /\ SqueezedFits) => used + pend + cost <= mapSize)
          /\ stack'  = [stack  EXCEPT ![Depth][<<sp, key>>] = v]
          /\ shadow' = [shadow EXCEPT ![Depth][<<sp, key>>] = v]
          /\ pend' = pend + cost
@@ -341,13 +349,15 @@ ResizeRefused == /\ resizing /\ cnt = 0 /\ \E t \in Threads : wait[t] = "gate_tx
                  /\ act' = [k |-> "ResizeRefused"]
                  /\ UNCHANGED <<data, space, wait, cnt, mark, torn>>
 
-\* process death at any instant (in particular right before / right after Commit)
+\* process death (or a clean close) at any instant, in particular right before / right after Commit, and the restart:
+\* the environment comes back with the committed data AND the map size that the last enlargement persisted
 Crash == /\ stack' = <<>> /\ shadow' = <<>> /\ bown' = 0 /\ pend' = 0 /\ squeezed' = FALSE
+         /\ mapSize' = IF ReopenClampsMap THEN (IF used > Chunk THEN used ELSE Chunk) ELSE mapSize
          /\ snap' = [r \in Readers |-> NoSnap] /\ rd' = [t \in Threads |-> NoRd]
          /\ resizing' = FALSE /\ wait' = [t \in Threads |-> "no"]
          /\ cnt' = 0 /\ mark' = [t \in Threads |-> 0]
          /\ act' = [k |-> "Crash"]
-         /\ UNCHANGED <<committed, mapSize, used, torn>>
+         /\ UNCHANGED <<committed, used, torn>>
 
 NextNoCrash ==
         \/ ResizeRefused \/ Child \/ CommitChild \/ DropChild \/ Commit \/ Drop \/ Resize
@@ -385,6 +395,8 @@ LookupTopDown == Depth > 0 => TopView = shadow[Depth]
 
 \* no operation fails for lack of space (under the BatchMax assumption)
 NoMapFull == used + pend <= mapSize
+\* the head-room is used up by commits only: nothing else - a restart in particular - makes the free part of the map smaller
+HeadroomKept == [][(mapSize' - used') < (mapSize - used) => act'.k = "Commit"]_vars
 \* the gate's bookkeeping is exact: open_txs_count counts EVERY open transaction of every thread (iterators, reads in
 \* flight, the batch), and a thread's own count says how many of them are its own
 CountAgrees == cnt = OpenTxs
